@@ -150,6 +150,10 @@ func isNilValue(v value) bool {
 		return v.p == nil || isNilValue(v.p)
 	case *nativeFunc:
 		return v == nil
+	case *boundFn:
+		return v == nil
+	case *ssa.Builtin:
+		return v == nil
 	}
 	panic(unsupported{fmt.Sprintf("nil comparison on %T", v)})
 }
@@ -328,6 +332,9 @@ func (fr *frame) unop(instr *ssa.UnOp) value {
 	x := fr.get(instr.X)
 	switch instr.Op {
 	case token.MUL: // load
+		if sr, isSym := x.(*symRef); isSym {
+			return sr.load()
+		}
 		ptr, ok := x.(*value)
 		if !ok {
 			panic(unsupported{fmt.Sprintf("load through %T", x)})
@@ -670,7 +677,7 @@ func (p *Path) indexCheck(idx *Term, signed bool, n int, what string) int {
 		}
 		return int(i)
 	}
-	inr := Cmp(OULt, idx, BV(idx.sort.W, uint64(n)))
+	inr := inRangeTerm(idx, n)
 	if !p.decide(inr, what+" in range") {
 		panic(runtimePanic(fmt.Sprintf("index out of range [symbolic] with length %d", n)))
 	}
